@@ -239,6 +239,13 @@ func decodeOne(c *Ctx, i int64, sub *uint32, src, dict []byte, dl int, class str
 			}
 		}
 	}
+	// Same block, dictionary, destination length AND prior destination contents (placements 0 and 2
+	// both start from the 0xA5 fill), different memory around the buffers: if the outputs differ, the
+	// decoder's result depends on memory outside the three slices, i.e. it read out of bounds even
+	// though no guard page was hit.
+	if ds.mode != "C12" && outs[0].ok && outs[2].ok && !outs[0].fault && !outs[2].fault && outs[0] != outs[2] {
+		c.ViolationAs("C03", "output-depends-on-memory-outside-the-slices", fmt.Sprintf("same block/dict/len(dst)=%d and same prior destination contents: guard-page placement gives %v, heap placement gives %v", dl, outs[0], outs[2]), det(""))
+	}
 	// results must not depend on placement or on the destination's prior contents
 	for pl := 1; pl < nplace; pl++ {
 		if outs[pl] != outs[0] && !outs[pl].fault && !outs[0].fault {
